@@ -312,6 +312,13 @@ fn inv_case(seed: u64, idx: u64) -> Program {
     let mut rng = Rng::for_case(seed, "c07inv", idx);
     let cfg = super::explore::explore_cfg();
     let mut p = generate(&mut rng, &cfg);
+    if idx % 5 == 4 {
+        // name-level negatives (a declaration clashing with an unqualified import placed before or after it, an
+        // unbound use, a duplicate): the verdict must not depend on where the declarations stand
+        if let Some((q, _, _)) = super::c08::negative(&p, &mut rng) {
+            return q;
+        }
+    }
     if idx % 3 != 0 {
         for _ in 0..rng.range(1, 2) {
             mutate_ast(&mut p, &mut rng);
